@@ -37,7 +37,16 @@ Fails(s) == s.op = "upgrade" /\ s.fail
 \* the deployed revision before step n: the newest one whose step succeeded (step 1, the install, always does)
 RECURSIVE DepAt(_, _)
 DepAt(steps, n) == IF n <= 2 THEN n - 1 ELSE IF Fails(steps[n - 1]) THEN DepAt(steps, n - 1) ELSE n - 1
-Carries(s) == IsUp(s) /\ s.mode \in {"reuse", "rtr"}
+\* mode: the value flags given with the upgrade, "reset" / "reuse" / "rtr" joined by "+" ("default":
+\* none of them).  Their documented precedence (helm upgrade --help; reuseValues tests them in this
+\* order): --reset-values first, then --reuse-values ("if --reset-values is specified, this is
+\* ignored"), then --reset-then-reuse-values ("if --reset-values or --reuse-values is specified,
+\* this is ignored").  Eff: the flag that decides.
+Eff(m) == CASE m \in {"reset", "reset+reuse", "reset+rtr", "reset+reuse+rtr"} -> "reset"
+            [] m \in {"reuse", "reuse+rtr"} -> "reuse"
+            [] m = "rtr" -> "rtr"
+            [] OTHER -> "default"
+Carries(s) == IsUp(s) /\ Eff(s.mode) \in {"reuse", "rtr"}
 
 (* ----- property-shaped ---------------------------------------------------- *)
 \* does the overlay put an explicit null over something the older values set? (shape of finding L18)
@@ -51,9 +60,9 @@ PropStep(revs, s, d) ==             \* d: index of the deployed revision
   LET dep == revs[d] IN
   CASE s.op = "install"  -> [hist |-> <<Mp(s.vals)>>, defs |-> Defaults[s.chart]]
     [] s.op = "rollback" -> revs[s.target]
-    [] s.mode = "reset"  -> [hist |-> <<Mp(s.vals)>>, defs |-> Defaults[s.chart]]
-    [] s.mode = "reuse"  -> [hist |-> Append(dep.hist, Mp(s.vals)), defs |-> dep.defs]
-    [] s.mode = "rtr"    -> [hist |-> Append(dep.hist, Mp(s.vals)), defs |-> Defaults[s.chart]]
+    [] Eff(s.mode) = "reset"  -> [hist |-> <<Mp(s.vals)>>, defs |-> Defaults[s.chart]]
+    [] Eff(s.mode) = "reuse"  -> [hist |-> Append(dep.hist, Mp(s.vals)), defs |-> dep.defs]
+    [] Eff(s.mode) = "rtr"    -> [hist |-> Append(dep.hist, Mp(s.vals)), defs |-> Defaults[s.chart]]
     [] OTHER             -> [hist |-> IF s.vals # <<>> THEN <<Mp(s.vals)>> ELSE dep.hist, defs |-> Defaults[s.chart]]
 
 RECURSIVE PropRevs(_, _)
@@ -65,7 +74,7 @@ PropRevs(steps, n) ==      \* the property's view of revisions 1..n
 ConfigOk(s, depCfg, tgtCfg, newCfg) ==
   CASE s.op = "install"  -> newCfg = s.vals
     [] s.op = "rollback" -> newCfg = tgtCfg
-    [] s.mode = "reset"  -> newCfg = s.vals
+    [] Eff(s.mode) = "reset"  -> newCfg = s.vals
     [] Carries(s)        -> Ok(<<Mp(depCfg), Mp(s.vals)>>, Mp(newCfg), TRUE)
     [] OTHER             -> newCfg = IF s.vals # <<>> THEN s.vals ELSE depCfg
 
@@ -77,10 +86,10 @@ CodeStep(revs, s, d) ==             \* prepareUpgrade: currentRelease = Releases
   LET dep == revs[d] IN
   CASE s.op = "install"  -> [cfg |-> s.vals, chartvals |-> Defaults[s.chart]]
     [] s.op = "rollback" -> revs[s.target]
-    [] s.mode = "reset"  -> [cfg |-> s.vals, chartvals |-> Defaults[s.chart]]
-    [] s.mode = "reuse"  -> [cfg |-> CoalesceTables(s.vals, dep.cfg),
+    [] Eff(s.mode) = "reset"  -> [cfg |-> s.vals, chartvals |-> Defaults[s.chart]]
+    [] Eff(s.mode) = "reuse"  -> [cfg |-> CoalesceTables(s.vals, dep.cfg),
                              chartvals |-> CoalesceValues([name |-> "root", vals |-> dep.chartvals, deps |-> <<>>], dep.cfg).v]
-    [] s.mode = "rtr"    -> [cfg |-> CoalesceTables(s.vals, dep.cfg), chartvals |-> Defaults[s.chart]]
+    [] Eff(s.mode) = "rtr"    -> [cfg |-> CoalesceTables(s.vals, dep.cfg), chartvals |-> Defaults[s.chart]]
     [] OTHER             -> [cfg |-> IF s.vals = <<>> /\ dep.cfg # <<>> THEN dep.cfg ELSE s.vals,
                              chartvals |-> Defaults[s.chart]]
 
@@ -119,7 +128,7 @@ L18Lineage(steps, cfgs, n) ==
   LET s == steps[n] IN
   CASE s.op = "install"  -> FALSE
     [] s.op = "rollback" -> L18Lineage(steps, cfgs, s.target)
-    [] s.mode = "reset"  -> FALSE
+    [] Eff(s.mode) = "reset"  -> FALSE
     [] Carries(s)        -> NullOverSet(s.vals, cfgs[DepAt(steps, n)]) \/ L18Lineage(steps, cfgs, DepAt(steps, n))
     [] OTHER             -> IF s.vals # <<>> THEN FALSE ELSE L18Lineage(steps, cfgs, DepAt(steps, n))
 =============================================================================
